@@ -215,8 +215,9 @@ func (l *Lexer) nextInsideToken() token.Token {
 		}
 	}
 
-	l.readChar()
+	// stamp the token with the line it is on: advancing may step onto a newline
 	tok.LineNumber = l.curLine
+	l.readChar()
 	return tok
 }
 
